@@ -173,3 +173,66 @@ package prover
 //@     invariant[H] root == merkle.delRoot(gadget.PreRoot, gadget.DeletionIndices, gadget.IdComms, gadget.MerkleProofs, gadget.Depth, i)
 //@     invariant inField(root)
 //@     decreases gadget.BatchSize - i
+
+// ---------------------------------------------------------------------------------------
+// C03 (+ top level of C01 / C02) — the circuits: public input = Keccak of the canonical packing
+// ---------------------------------------------------------------------------------------
+
+//@ func (*InsertionMbuCircuit) Define
+//@   property C03 C01
+//@   requires circuit.BatchSize >= 0 && len(circuit.IdComms) == circuit.BatchSize && len(circuit.MerkleProofs) == circuit.BatchSize
+//@   requires forall j :: 0 <= j && j < circuit.BatchSize ==> len(circuit.MerkleProofs[j]) == circuit.Depth
+//@   requires 0 <= circuit.Depth && circuit.Depth <= 32
+//@   let B = circuit.BatchSize
+//@   let n = 544 + 256 * B
+//@   let msg = pack.insBits(circuit.StartIndex, circuit.PreRoot, circuit.PostRoot, circuit.IdComms)
+//@   let hashOK = circuit.InputHash == pack.beval(keccak.digest(msg, n, 1), 256) % P
+//@   let merkleOK = merkle.insValid(circuit.StartIndex, circuit.PreRoot, circuit.IdComms, circuit.MerkleProofs, circuit.Depth, B) &&
+//@                  merkle.insRoot(circuit.StartIndex, circuit.PreRoot, circuit.IdComms, circuit.MerkleProofs, circuit.Depth, B) == circuit.PostRoot
+//@   ensures[A] api.ok ==> ok0 && circuit.StartIndex < 4294967296 && hashOK && merkleOK
+//@   ensures[H] api.ok == (ok0 && circuit.StartIndex < 4294967296 && hashOK && merkleOK)
+//@   ensures result == nil
+//@   lemmas pow2_32 pow2_256 bit_bool allboolFrom_intro keccak_ext digest_bool insBits_sel
+//@   loop 1
+//@     invariant 0 <= i && i <= B
+//@     invariant len(bits) == 544 + 256 * i
+//@     invariant[A] api.ok ==> ok0 && circuit.StartIndex < 4294967296
+//@     invariant[H] api.ok == (ok0 && circuit.StartIndex < 4294967296)
+//@     invariant[A] api.ok ==> (forall t :: 0 <= t && t < len(bits) ==> bits[t] == pack.insBit(circuit.StartIndex, circuit.PreRoot, circuit.PostRoot, circuit.IdComms, t))
+//@     invariant[H] forall t :: 0 <= t && t < len(bits) ==> bits[t] == pack.insBit(circuit.StartIndex, circuit.PreRoot, circuit.PostRoot, circuit.IdComms, t)
+//@     decreases B - i
+//@   assert@loop1 len(bits) == n
+//@   assert@loop1[A] api.ok ==> bits.allboolFrom(bits, 0, n)
+//@   assert@loop1[H] bits.allboolFrom(bits, 0, n)
+//@   assert@loop1[A] api.ok ==> keccak.digest(bits, n, 1) == keccak.digest(msg, n, 1)
+//@   assert@loop1[H] keccak.digest(bits, n, 1) == keccak.digest(msg, n, 1)
+
+//@ func (*DeletionMbuCircuit) Define
+//@   property C03 C02
+//@   requires circuit.BatchSize >= 0 && len(circuit.IdComms) == circuit.BatchSize && len(circuit.MerkleProofs) == circuit.BatchSize
+//@   requires len(circuit.DeletionIndices) == circuit.BatchSize
+//@   requires forall j :: 0 <= j && j < circuit.BatchSize ==> len(circuit.MerkleProofs[j]) == circuit.Depth
+//@   requires 0 <= circuit.Depth
+//@   let B = circuit.BatchSize
+//@   let n = 32 * B + 512
+//@   let msg = pack.delBits(circuit.DeletionIndices, circuit.PreRoot, circuit.PostRoot, B)
+//@   let idxOK = (forall j :: 0 <= j && j < B ==> circuit.DeletionIndices[j] < 4294967296)
+//@   let hashOK = circuit.InputHash == pack.beval(keccak.digest(msg, n, 1), 256) % P
+//@   let merkleOK = merkle.delValid(circuit.PreRoot, circuit.DeletionIndices, circuit.IdComms, circuit.MerkleProofs, circuit.Depth, B) &&
+//@                  merkle.delRoot(circuit.PreRoot, circuit.DeletionIndices, circuit.IdComms, circuit.MerkleProofs, circuit.Depth, B) == circuit.PostRoot
+//@   ensures circuit.Depth > 31 ==> result != nil && api.ok == ok0
+//@   ensures circuit.Depth <= 31 ==> result == nil
+//@   ensures[A] circuit.Depth <= 31 ==> (api.ok ==> ok0 && idxOK && hashOK && merkleOK)
+//@   ensures[H] circuit.Depth <= 31 ==> (api.ok == (ok0 && idxOK && hashOK && merkleOK))
+//@   lemmas pow2_32 pow2_256 bit_bool allboolFrom_intro keccak_ext digest_bool delBits_sel
+//@   loop 1
+//@     invariant 0 <= i && i <= B
+//@     invariant len(bits) == 32 * i
+//@     invariant[A] api.ok ==> ok0 && (forall j :: 0 <= j && j < i ==> circuit.DeletionIndices[j] < 4294967296)
+//@     invariant[H] api.ok == (ok0 && (forall j :: 0 <= j && j < i ==> circuit.DeletionIndices[j] < 4294967296))
+//@     invariant[A] api.ok ==> (forall t :: 0 <= t && t < len(bits) ==> bits[t] == pack.delBit(circuit.DeletionIndices, circuit.PreRoot, circuit.PostRoot, B, t))
+//@     invariant[H] forall t :: 0 <= t && t < len(bits) ==> bits[t] == pack.delBit(circuit.DeletionIndices, circuit.PreRoot, circuit.PostRoot, B, t)
+//@     decreases B - i
+//@   assert@def:hash len(bits) == n
+//@   assert@def:hash[A] api.ok ==> keccak.digest(bits, n, 1) == keccak.digest(msg, n, 1)
+//@   assert@def:hash[H] keccak.digest(bits, n, 1) == keccak.digest(msg, n, 1)
